@@ -1016,6 +1016,15 @@ pub fn trace_info(desc: &AirDesc) -> TraceInfo {
     }
 }
 
+/// the `TraceInfo` of a description whose trace carries custom metadata (`TraceInfo::with_meta` /
+/// `new_multi_segment(.., meta)`)
+pub fn trace_info_with_meta(desc: &AirDesc, meta: &[u8]) -> TraceInfo {
+    match &desc.aux {
+        None => TraceInfo::with_meta(desc.width, desc.trace_len, meta.to_vec()),
+        Some(x) => TraceInfo::new_multi_segment(desc.width, x.width, x.num_rands, desc.trace_len, meta.to_vec()),
+    }
+}
+
 impl<B: GField> Air for GenericAir<B> {
     type BaseField = B;
     type PublicInputs = GenPub<B>;
@@ -1169,6 +1178,15 @@ impl<B: GField> GenTrace<B> {
             })
             .collect();
         GenTrace { info: trace_info(desc), main: ColMatrix::new(cols) }
+    }
+}
+
+impl<B: GField> GenTrace<B> {
+    /// as `new`, with custom trace metadata
+    pub fn new_with_meta(desc: &AirDesc, data: &TraceData, meta: &[u8]) -> Self {
+        let mut t = Self::new(desc, data);
+        t.info = trace_info_with_meta(desc, meta);
+        t
     }
 }
 
@@ -1833,6 +1851,23 @@ fn prove_g<B: GField, H: ElementHasher<BaseField = B> + Send + Sync>(
 /// `core::guarded`). `hasher` must be compatible with `field`.
 pub fn prove_ex(desc: &Arc<AirDesc>, trace: &TraceData, field: FieldId, opts: &OptSpec, hasher: HashId) -> ProveOut {
     dispatch!(field, hasher, prove_g, (desc, trace, opts))
+}
+
+fn prove_meta_g<B: GField, H: ElementHasher<BaseField = B> + Send + Sync>(
+    desc: &Arc<AirDesc>,
+    trace: &TraceData,
+    opts: &OptSpec,
+    meta: &[u8],
+) -> ProveOut {
+    let prover = GenericProver::<B, H, DefaultRandomCoin<H>>::new(desc.clone(), opts.to_options());
+    let proof = prover.prove(GenTrace::<B>::new_with_meta(desc, trace, meta));
+    let aux_check = prover.aux_check.lock().unwrap().take();
+    ProveOut { proof, aux_check }
+}
+
+/// as [`prove_ex`], for a trace that carries the custom metadata `meta`
+pub fn prove_ex_meta(desc: &Arc<AirDesc>, trace: &TraceData, field: FieldId, opts: &OptSpec, hasher: HashId, meta: &[u8]) -> ProveOut {
+    dispatch!(field, hasher, prove_meta_g, (desc, trace, opts, meta))
 }
 
 pub fn prove(desc: &Arc<AirDesc>, trace: &TraceData, field: FieldId, opts: &OptSpec, hasher: HashId) -> Result<Proof, ProverError> {
